@@ -1,4 +1,5 @@
 import OpusModel.RangeCoder
+import OpusModel.RangeCoderCodes
 import Driver.Util
 /-
   Suite `rangecoder` (property C08).  Line protocol (harness/c08_rangecoder.c emits the same):
@@ -20,6 +21,14 @@ import Driver.Util
         B   physical buffer and trailing guard bytes after ec_enc_done, S final storage,
         X   decoder (run on the first S bytes): state after ec_dec_init, then value@state per op
         st = rng,val,offs,end_offs,end_window,nend_bits,nbits_total,rem,ext,error,tell,tell_frac
+
+    rangecoder cseq <size> <fill> <codes>          (harness/c08_codes.c; composition with C17)
+        codes   `;`-separated coding steps
+                  L:value:fs:decay   ec_laplace_encode / ec_laplace_decode
+                  P:K:y0,y1,…        encode_pulses / decode_pulses (N = number of y)
+                  e: b: l: u: r:     plain calls as in `seq`
+      answer:  <ok|err> W <values written back by ec_laplace_encode|-> D <st> B <hex size+16>
+               X <decoded: L<int> | P<y,…> | S<n>, `|`-separated, or - on err> Y <decoder st|->
 
     rangecoder tf <l> <rlo> <n> <low> <nbits>
         ec_tell / ec_tell_frac for rng = (r << (l-16)) + (low ? 2^(l-16)-1 : 0), r = rlo..rlo+n-1,
@@ -87,7 +96,53 @@ def runSeq (size fill : Nat) (ops : List Op) : String :=
 def tfCtx (rng nbits : Nat) : Ctx :=
   { (default : Ctx) with rng := rng, nbitsTotal := nbits }
 
+def parseCode (s : String) : Option Code :=
+  match s.splitOn ":" with
+  | ["L", a, b, c] =>
+    match parseInt a, parseNat b, parseNat c with
+    | some a, some b, some c => some (.laplace a b c)
+    | _, _, _ => none
+  | ["P", k, ys] =>
+    match parseNat k, parseIntList ys with
+    | some k, some ys => some (.pulses ys k)
+    | _, _ => none
+  | _ => (parseOp [] s).map .op
+
+def valStr : CodeVal → String
+  | .sym x => s!"S{x}"
+  | .lap v => s!"L{v}"
+  | .vec y => "P" ++ intList y
+
+def faultStr {α} : Res α → String
+  | .ok _ => "ok"
+  | .err e => e.name
+  | .oob => "OOB"
+  | .abort => "ABORT"
+
+def runCseq (size fill : Nat) (cs : List Code) : String :=
+  let phys := (List.range (size + 16)).map (fun i => (fill + 37 * i) % 256)
+  match codesOps cs with
+  | .ok ops =>
+    let e2 := encodeAll phys size ops
+    let wb := cs.filterMap (fun c =>
+      match c with
+      | .laplace v fs d => (match Laplace.encode v fs d with | .ok r => some r.2.2 | _ => none)
+      | _ => none)
+    let tag := if e2.error = 0 then "ok" else "err"
+    let wbs := if wb.isEmpty then "-" else intList wb
+    let head := s!"{tag} W {wbs} D {stStr e2} B {toHex e2.buf}"
+    if e2.error ≠ 0 then head ++ " X - Y -"
+    else
+      match decCodes (decInit (e2.buf.take e2.storage) e2.storage) cs with
+      | .ok (vals, d) => head ++ s!" X {"|".intercalate (vals.map valStr)} Y {stStr d}"
+      | r => head ++ " X " ++ faultStr r
+  | r => faultStr r
+
 def handle : List String → String
+  | ["cseq", size, fill, codes] =>
+    match parseNat size, parseNat fill, (codes.splitOn ";").mapM parseCode with
+    | some size, some fill, some cs => runCseq size fill cs
+    | _, _, _ => "bad-op"
   | ["seq", size, fill, tbls, ops] =>
     match parseNat size, parseNat fill, parseTables tbls with
     | some size, some fill, some tbls =>
